@@ -231,6 +231,8 @@ let handle (line : Stdlib.String.t) : Stdlib.String.t =
           | Ok (Ok v) -> let bf = Buffer.create 512 in dump_value bf v;
               "OK " ^ Buffer.contents bf ^ " | " ^ (if no_list v then "hashable" else "unhashable"))
        with Failure m -> "BAD-REQUEST " ^ m)
+  | "LEXCALLS" :: mb :: flags :: rest ->
+      string_of_int (int_of_nat (lex_handle_calls (mb = "1") (nat_of_int (int_of_string flags)) (ints_of rest)))
   | "CURSOR" :: rest ->
       (try
          let (toks, rest1) = parse_toks rest in
